@@ -72,16 +72,36 @@ def run(ctx):
             q["runs"] = 2
             q["reseed"] = 1
             ps2.append(q)
+        # nested configurations keep a subsidiary object inside the user's object between calls: explicit local optimizer,
+        # constraints handed down (AUGLAG_EQ), population / vector storage settings
+        for nm in problems.AUGLAG + problems.MLSL:
+            for _ in range(6 if ctx.thorough else 2):
+                p = problems.gen_problem(rng, A, alg_name=nm, with_constraints=("AUGLAG" in nm), box="finite", maxeval=rng.choice([30, 80]))
+                deriv = "_LD_" in nm or "_GD_" in nm
+                loc = rng.choice(["NLOPT_LD_SLSQP", "NLOPT_LD_MMA", "NLOPT_LD_LBFGS"] if deriv else ["NLOPT_LN_COBYLA", "NLOPT_LN_NELDERMEAD", "NLOPT_LN_SBPLX"])
+                if "AUGLAG" in nm and "ineq" in p and not deriv and "_EQ" in nm:
+                    loc = "NLOPT_LN_COBYLA"          # the subsidiary optimizer must accept the inequality constraints handed down
+                if "AUGLAG" in nm and deriv and "_EQ" in nm:
+                    loc = rng.choice(["NLOPT_LD_SLSQP", "NLOPT_LD_MMA"])
+                p["local"] = "%d:%d:%x:%x" % (A.id(loc), rng.choice([0, 20]), 0x3f50624dd2f1a9fc, 0x3f50624dd2f1a9fc)
+                p["runs"] = 3
+                p["reseed"] = 1
+                ps2.append(p)
         lines = [problems.to_line(p) for p in ps2]
         runs, _ = swrap.run_specs(bdir, lines)
         firsts = [r for r in runs if getattr(r, "part", 1) == 1]
+        thirds = []
         seconds = {}
         for i, r in enumerate(runs):
             if getattr(r, "part", 1) == 2:
                 seconds[id(runs[i - 1])] = r
+            elif getattr(r, "part", 1) == 3 and i >= 2:
+                thirds.append((runs[i - 2], r))
         pa = [r for r in firsts if id(r) in seconds]
         pb = [seconds[id(r)] for r in pa]
         runcheck.compare_pairs(ctx, pa, pb, same, "twice on the same object", {"cause": "second run on the same object differs"})
+        if thirds:
+            runcheck.compare_pairs(ctx, [a for a, _ in thirds], [b for _, b in thirds], same, "three times on the same object", {"cause": "third run on the same object differs"})
         ps3 = [dict(p, copy=1) for p in ps[:len(ps) // 2]]
         b3 = runcheck.run_batch(ctx, bdir, A, ps3, [], "on a copy", replay=False, blame_crash=False)
         runcheck.compare_pairs(ctx, [r for _, r, _ in b1][:len(ps3)], [r for _, r, _ in b3], same, "original vs nlopt_copy", {"cause": "copy optimizes differently"})
